@@ -200,3 +200,31 @@ func SpecWithRa(name string) string {
 //@   loop 0 invariant filename == SpecWithRa(old(filename)) && implies(OpaqueIsAbs(filename), filePath == filename)
 //@   loop 0 body[C05] path-tried: argOf(Open, 0) == iteS(OpaqueIsAbs(SpecWithRa(old(filename))), SpecWithRa(old(filename)), OpaqueFJoin2(directory, SpecWithRa(old(filename))))
 //@   loop 0 body[C05] include-dir-first: implies(rangeIndex0 == 1, directory == rootParser.ctx.rootContext.includeFilesDirectory) && implies(rangeIndex0 == 2, directory == rootParser.ctx.rootContext.excludeFilesDirectory)
+
+// ---- C19: zero-annotation safety sweep over the rest of the parser package ----------------------
+// parseLine: the pattern comes out of a map, so the generator cannot know how many groups
+// `found` has; that every found[k] fits the pattern registered under the case's name is the
+// switch-groups obligation below (read from NewParser's literal on every run).
+//@ contract Parser.parseLine
+//@   tags C19
+//@   safety none
+//@   opt termination C19
+//@   results pl
+
+//@ directive[C19,C03] switch-groups Parser.parseLine NewParser patterns
+
+//@ contract splitArgs
+//@   tags C19
+//@   opt termination C19
+//@   results r
+
+//@ contract buildIncludeExceptString
+//@   tags C19 C06
+//@   opt termination C19
+//@   results out err
+//@   checks[C06,C03] exclusions-removed-then-sorted: called(removeExclusions) && called(stringFromInclusionLines)
+
+//@ contract NewParser
+//@   tags C19
+//@   opt termination C19
+//@   results p
